@@ -69,21 +69,21 @@ theorem hookTransfer_iter (σ : Leaves) (reg : Nat → Option (List Row)) (t : R
     (hk : t.engine.kind = .iter) (hio : t.IterOKs s.st) (hwf : t.WF) (htr : t.Truthful σ)
     (hkd : keyDetermined σ t = true) (hreg : t.RegOK σ reg) (hs : StoreOK σ reg s.st) :
     ∃ s', (hookTransfer σ t dest matAs) s = (.ok (.iter (.seq (sem σ t))), s') ∧ StoreOK σ reg s'.st ∧
-      s'.sq = s.sq ∧ s'.nextTemp = s.nextTemp ∧ PayMono s.st s'.st := by
-  obtain ⟨it, st', h1, h2, h3, h4⟩ : ∃ it st', exec σ t.engine t { s.st with log := [] } = .ok (it, st') ∧
-      it.rows σ = .ok (sem σ t) ∧ StoreOK σ reg st' ∧ PayMono s.st st' := by
+      s'.sq = s.sq ∧ s'.nextTemp = s.nextTemp ∧ PayMono s.st s'.st ∧ PayNew t s.st s'.st := by
+  obtain ⟨it, st', h1, h2, h3, h4, h5⟩ : ∃ it st', exec σ t.engine t { s.st with log := [] } = .ok (it, st') ∧
+      it.rows σ = .ok (sem σ t) ∧ StoreOK σ reg st' ∧ PayMono s.st st' ∧ PayNew t s.st st' := by
     have hm0 : PayMono s.st { s.st with log := [] } := PayMono.of_payloads_eq rfl
     have := exec_correctM σ reg t t.engine { s.st with log := [] } (IterOKs.mono hm0 t hio) hwf htr hkd hreg
       (hs.log []) rfl
     unfold ExecGoodM at this
-    obtain ⟨it, s', a, b, _, d, e⟩ := this
-    exact ⟨it, s', a, b, d, hm0.trans e⟩
+    obtain ⟨it, s', a, b, _, d, e, f⟩ := this
+    exact ⟨it, s', a, b, d, hm0.trans e, fun o ho => f o ho⟩
   unfold hookTransfer evalSingle wrapRows
   simp [bind, ExceptT.bind, ExceptT.mk, ExceptT.bindCont, StateT.bind, get, getThe, MonadStateOf.get,
     StateT.get, set, StateT.set, modify, modifyGet, MonadStateOf.modifyGet, StateT.modifyGet, MonadState.modifyGet,
     liftM, monadLift, MonadLift.monadLift, ExceptT.lift, pure,
     ExceptT.pure, StateT.pure, Functor.map, StateT.map, hk, hd, h1, h2]
-  exact ⟨_, rfl, h3.of_payloads_eq rfl, rfl, rfl, fun o ho => h4 o ho⟩
+  exact ⟨_, rfl, h3.of_payloads_eq rfl, rfl, rfl, fun o ho => h4 o ho, fun o ho => h5 o ho⟩
 
 theorem run_ok_inj {α β : Type} {a a' : α} {e : Type} {s s' : β}
     (h : ((Except.ok a : Except e α), s) = (Except.ok a', s')) : a = a' ∧ s = s' := by
@@ -152,6 +152,35 @@ structure TreeInv (σ : Leaves) (reg : Nat → Option (List Row)) (sq0 : SqlStat
   sq : s.sq = sq0
   free : x.sqFree sq0
   fresh : ∀ o, s.nextTemp ≤ o → sq0.payload o = none
+  /-- nothing is stored under allocation ids that have not been handed out yet -/
+  freshSt : ∀ o, s.nextTemp ≤ o → s.st.payload o = none
+
+theorem matOids_below {n : Nat} : (t : Rel) → t.markersBelow n → ∀ o, o ∈ t.matOids → o < n
+  | .leaf .., _, _, ho => by simp [Rel.matOids] at ho
+  | .unary _ t _, h, o, ho => matOids_below t h o ho
+  | .binary _ l r _, h, o, ho => by
+    simp only [Rel.matOids, List.mem_append] at ho
+    exact ho.elim (matOids_below l h.1 o) (matOids_below r h.2 o)
+  | .mat oid _ t, h, o, ho => by
+    simp only [Rel.matOids, List.mem_cons] at ho
+    rcases ho with ho | ho
+    · rw [ho]; exact h.1
+    · exact matOids_below t h.2 o ho
+  | .transfer _ _ t, h, o, ho => matOids_below t h.2 o ho
+  | .select _ _ _ _ _ _ _ _ t, h, o, ho => matOids_below t h.2 o ho
+
+/-- Payloads that appear on Materializations of a tree whose markers were all allocated keep the unallocated ids
+free. -/
+theorem freshSt_of_new {t : Rel} {st st' : ExecState} {n n' : Nat} (hb : t.markersBelow n) (hn : n ≤ n')
+    (hf : ∀ o, n ≤ o → st.payload o = none) (hnew : PayNew t st st') : ∀ o, n' ≤ o → st'.payload o = none := by
+  intro o ho
+  cases hp : st'.payload o with
+  | none => rfl
+  | some p =>
+    rcases hnew o (by simp [hp]) with h | h
+    · rw [hf o (Nat.le_trans hn ho)] at h; cases h
+    · have := matOids_below t hb o h
+      omega
 
 /-- Re-applying the operation of an existing node to the processed target (`operation.apply(new_target)` inside one
 iteration engine). -/
@@ -193,7 +222,7 @@ theorem reapply_iter (σ : Leaves) (reg : Nat → Option (List Row)) (st : Store
           rw [hc] at this
           simpa [UOp.appliedColumns] using this
         · exact finishApply_kd σ x o' r X.kd (by simpa using hdd) h
-      refine ⟨⟨f.wf, f.truthful, hkd', ?_, ?_, X.store, X.sq, ?_, X.fresh⟩, ?_,
+      refine ⟨⟨f.wf, f.truthful, hkd', ?_, ?_, X.store, X.sq, ?_, X.fresh, X.freshSt⟩, ?_,
         by rw [← hsemEq]; exact f.sem_eq, fun u => (f.cols u).trans (hcolsEq u), f.engine⟩
       · exact finishApply_pres (fun y => y.RegOK σ reg) (fun _ => True) (fun _ => True)
           (fun up t c hp => ⟨hp, trivial⟩) (fun op t c hp _ _ => hp) (fun _ _ _ _ _ _ => trivial) x o' r X.regOK trivial h
@@ -228,7 +257,7 @@ theorem rechain_iter (σ : Leaves) (reg : Nat → Option (List Row)) (st : Store
       subst h
       have hceq := (Cols.seteq_iff _ _).mp hc
       refine ⟨⟨⟨L.wf, R.wf, rfl, hceq⟩, ⟨L.truthful, R.truthful⟩, ?_,
-        ⟨L.regOK, R.regOK⟩, ⟨L.below, R.below⟩, L.store, L.sq, ⟨L.free, R.free⟩, L.fresh⟩,
+        ⟨L.regOK, R.regOK⟩, ⟨L.below, R.below⟩, L.store, L.sq, ⟨L.free, R.free⟩, L.fresh, L.freshSt⟩,
         ⟨hL, hR, heq, trivial⟩, ?_, ?_, ?_⟩
       · simp [BRes.get, keyDetermined, L.kd, R.kd]
       · simp [sem, BRes.get]
@@ -245,8 +274,8 @@ theorem MultiIter.kind : (t : Rel) → t.MultiIter → t.engine.kind = .iter
   | .select .., h => by cases h
 
 /-- What processing achieves. -/
-structure ProcMultiOK (σ : Leaves) (reg : Nat → Option (List Row)) (sq0 : SqlState) (t : Rel) (s : ProcState) (res : Res)
-    (s' : ProcState) : Prop where
+structure ProcMultiOK (σ : Leaves) (reg : Nat → Option (List Row)) (sq0 : SqlState) (t : Rel) (s : ProcState)
+    (matAs : Option String) (res : Res) (b : Bool) (s' : ProcState) : Prop where
   inv : TreeInv σ reg sq0 (res.get t) s'
   exec : (res.get t).IterOKs s'.st
   mono : PayMono s.st s'.st
@@ -254,19 +283,188 @@ structure ProcMultiOK (σ : Leaves) (reg : Nat → Option (List Row)) (sq0 : Sql
   cols : ∀ u, u ∈ (res.get t).columns ↔ u ∈ t.columns
   engine : (res.get t).engine = t.engine
   temp : s.nextTemp ≤ s'.nextTemp
+  /-- the `was_materialized` flag is raised only when the returned relation holds a payload (looked up through
+  payload-less markers) -/
+  flag : b = true → (payloadThrough s' (res.get t)).isSome = true
+  /-- a Transfer that had to be processed comes back as a new Transfer to the same destination -/
+  xfer : ∀ o d t0, t = .transfer o d t0 → (matAs.isSome = true → b = true) ∧
+    ∀ x, res = .new x → ∃ f t', x = .transfer f d t' ∧ t'.engine = t0.engine
+
+theorem payloadThrough_temp (s : ProcState) (n : Nat) : (t : Rel) →
+    payloadThrough { s with nextTemp := n } t = payloadThrough s t
+  | .leaf .. => rfl
+  | .unary .. => rfl
+  | .binary .. => rfl
+  | .mat oid nm t => by
+    unfold payloadThrough
+    rw [payloadThrough_temp s n t]; rfl
+  | .transfer oid d t => by
+    unfold payloadThrough
+    rw [payloadThrough_temp s n t]; rfl
+  | .select a b c d e f g i t => by
+    unfold payloadThrough
+    rw [payloadThrough_temp s n t]; rfl
+
+theorem payloadOf_marker_isSome (s : ProcState) (x : Rel) (hx : x.procFlag = true) (hl : ∀ a b c d e f g i, x ≠ .leaf a b c d e f g i) :
+    (s.payloadOf x).isSome = ((s.st.payload x.oid).isSome || (s.sq.payload x.oid).isSome) := by
+  cases x with
+  | leaf a b c d e f g i => exact absurd rfl (hl a b c d e f g i)
+  | unary => simp [Rel.procFlag] at hx
+  | binary => simp [Rel.procFlag] at hx
+  | mat oid n t => simp only [ProcState.payloadOf, Rel.oid]; cases s.st.payload oid <;> simp
+  | transfer oid d t => simp only [ProcState.payloadOf, Rel.oid]; cases s.st.payload oid <;> simp
+  | select oid a1 a2 a3 a4 a5 a6 a7 t => simp only [ProcState.payloadOf, Rel.oid]; cases s.st.payload oid <;> simp
+
+theorem payloadOf_mono {s s' : ProcState} (hsq : s'.sq = s.sq) (hm : PayMono s.st s'.st) (x : Rel)
+    (h : (s.payloadOf x).isSome = true) : (s'.payloadOf x).isSome = true := by
+  have key : ∀ y : Rel, y.procFlag = true → (∀ a b c d e f g i, y ≠ .leaf a b c d e f g i) →
+      (s.payloadOf y).isSome = true → (s'.payloadOf y).isSome = true := by
+    intro y hy hl hh
+    rw [payloadOf_marker_isSome s y hy hl] at hh
+    rw [payloadOf_marker_isSome s' y hy hl, hsq]
+    simp only [Bool.or_eq_true] at hh ⊢
+    exact hh.imp (hm _) id
+  cases x with
+  | leaf oid le cols nm mn mx pl ms =>
+    simp only [ProcState.payloadOf] at h ⊢
+    rw [hsq]; exact h
+  | unary => simp [ProcState.payloadOf] at h
+  | binary => simp [ProcState.payloadOf] at h
+  | mat oid n t => exact key _ rfl (fun _ _ _ _ _ _ _ _ hh => by cases hh) h
+  | transfer oid d t => exact key _ rfl (fun _ _ _ _ _ _ _ _ hh => by cases hh) h
+  | select oid a1 a2 a3 a4 a5 a6 a7 t => exact key _ rfl (fun _ _ _ _ _ _ _ _ hh => by cases hh) h
+
+theorem payloadThrough_mono {s s' : ProcState} (hsq : s'.sq = s.sq) (hm : PayMono s.st s'.st) :
+    (x : Rel) → (payloadThrough s x).isSome = true → (payloadThrough s' x).isSome = true
+  | .leaf a b c d e f g i, h => by
+    simp only [payloadThrough] at h ⊢
+    exact payloadOf_mono hsq hm _ h
+  | .unary .., h => by simp [payloadThrough, ProcState.payloadOf] at h
+  | .binary .., h => by simp [payloadThrough, ProcState.payloadOf] at h
+  | .mat oid n t, h => by
+    unfold payloadThrough at h ⊢
+    cases hp' : s'.payloadOf (Rel.mat oid n t) with
+    | some q => rfl
+    | none =>
+      cases hp : s.payloadOf (Rel.mat oid n t) with
+      | some q =>
+        have := payloadOf_mono hsq hm (Rel.mat oid n t) (by simp [hp])
+        simp [hp'] at this
+      | none =>
+        simp only [hp] at h
+        exact payloadThrough_mono hsq hm t h
+  | .transfer oid d t, h => by
+    unfold payloadThrough at h ⊢
+    cases hp' : s'.payloadOf (Rel.transfer oid d t) with
+    | some q => rfl
+    | none =>
+      cases hp : s.payloadOf (Rel.transfer oid d t) with
+      | some q =>
+        have := payloadOf_mono hsq hm (Rel.transfer oid d t) (by simp [hp])
+        simp [hp'] at this
+      | none =>
+        simp only [hp] at h
+        exact payloadThrough_mono hsq hm t h
+  | .select oid a1 a2 a3 a4 a5 a6 a7 t, h => by
+    unfold payloadThrough at h ⊢
+    cases hp' : s'.payloadOf (Rel.select oid a1 a2 a3 a4 a5 a6 a7 t) with
+    | some q => rfl
+    | none =>
+      cases hp : s.payloadOf (Rel.select oid a1 a2 a3 a4 a5 a6 a7 t) with
+      | some q =>
+        have := payloadOf_mono hsq hm (Rel.select oid a1 a2 a3 a4 a5 a6 a7 t) (by simp [hp])
+        simp [hp'] at this
+      | none =>
+        simp only [hp] at h
+        exact payloadThrough_mono hsq hm t h
+
+/-- A payload found by looking through payload-less markers of an executable tree stands for the tree's rows. -/
+theorem payloadThrough_rows (σ : Leaves) (reg : Nat → Option (List Row)) (s : ProcState) (hs : StoreOK σ reg s.st) :
+    (x : Rel) → x.sqFree s.sq → x.RegOK σ reg → x.IterOKs s.st → (p : AnyPayload) → payloadThrough s x = some p →
+    ∃ it, p = .iter it ∧ ItOK it ∧ it.rows σ = .ok (sem σ x)
+  | .leaf oid le cols nm mn mx pl ms, hq, _, _, p, h => by
+    simp only [payloadThrough] at h
+    rw [payloadOf_free s (Rel.leaf oid le cols nm mn mx pl ms) hq] at h
+    cases pl with
+    | false => simp at h
+    | true =>
+      simp only [Bool.not_true, Bool.false_eq_true, if_false, Option.some.injEq] at h
+      exact ⟨.leafRef oid, h.symm, trivial, rfl⟩
+  | .unary .., _, _, _, p, h => by simp [payloadThrough, ProcState.payloadOf] at h
+  | .binary .., _, _, _, p, h => by simp [payloadThrough, ProcState.payloadOf] at h
+  | .mat oid n t, hq, hreg, hio, p, h => by
+    unfold payloadThrough at h
+    rw [payloadOf_free s (Rel.mat oid n t) hq.1] at h
+    simp only [Rel.oid] at h
+    cases hp : s.st.payload oid with
+    | some it =>
+      simp only [hp, Option.map_some, Option.some.injEq] at h
+      obtain ⟨hi, rows, hr, hrows⟩ := hs oid it hp
+      rw [hreg.1] at hr
+      injection hr with hr
+      exact ⟨it, h.symm, hi, by rw [hrows, ← hr]; rfl⟩
+    | none =>
+      simp only [hp, Option.map_none] at h
+      have hio' : t.IterOKs s.st := by
+        rcases hio with hh | hh
+        · rw [hp] at hh; cases hh
+        · exact hh
+      obtain ⟨it, a, b, c⟩ := payloadThrough_rows σ reg s hs t hq.2 hreg.2 hio' p h
+      exact ⟨it, a, b, by simpa [sem] using c⟩
+  | .transfer oid d t, hq, hreg, hio, p, h => by
+    unfold payloadThrough at h
+    rw [payloadOf_free s (Rel.transfer oid d t) hq.1] at h
+    simp only [Rel.oid] at h
+    cases hp : s.st.payload oid with
+    | some it =>
+      simp only [hp, Option.map_some, Option.some.injEq] at h
+      obtain ⟨hi, rows, hr, hrows⟩ := hs oid it hp
+      rw [hreg.1] at hr
+      injection hr with hr
+      exact ⟨it, h.symm, hi, by rw [hrows, ← hr]; rfl⟩
+    | none =>
+      simp only [hp, Option.map_none] at h
+      have hio' : t.IterOKs s.st ∧ t.engine.kind = .iter := by
+        rcases hio with hh | hh
+        · rw [hp] at hh; cases hh
+        · exact hh
+      obtain ⟨it, a, b, c⟩ := payloadThrough_rows σ reg s hs t (hq.2 hio'.2) hreg.2 hio'.1 p h
+      exact ⟨it, a, b, by simpa [sem] using c⟩
+  | .select oid a1 a2 a3 a4 a5 a6 a7 t, hq, hreg, hio, p, h => by
+    unfold payloadThrough at h
+    rw [payloadOf_free s (Rel.select oid a1 a2 a3 a4 a5 a6 a7 t) hq.1] at h
+    simp only [Rel.oid] at h
+    cases hp : s.st.payload oid with
+    | some it =>
+      simp only [hp, Option.map_some, Option.some.injEq] at h
+      obtain ⟨hi, rows, hr, hrows⟩ := hs oid it hp
+      rw [hreg.1] at hr
+      injection hr with hr
+      exact ⟨it, h.symm, hi, by rw [hrows, ← hr]; rfl⟩
+    | none =>
+      simp only [hp, Option.map_none] at h
+      obtain ⟨it, a, b, c⟩ := payloadThrough_rows σ reg s hs t hq.2 hreg.2 hio p h
+      exact ⟨it, a, b, by simpa [sem] using c⟩
+
+theorem payloadThrough_isSome (s : ProcState) (t : Rel) (h : (s.payloadOf t).isSome = true) :
+    (payloadThrough s t).isSome = true := by
+  cases hp : s.payloadOf t with
+  | none => simp [hp] at h
+  | some p => rw [payloadThrough_some s p t hp]; rfl
 
 theorem TreeInv.same {σ : Leaves} {reg reg' : Nat → Option (List Row)} {t : Rel} {s s' : ProcState}
     (T : TreeInv σ reg sq0 t s) (he : RegExt reg reg' s.nextTemp) (hn : s.nextTemp ≤ s'.nextTemp)
-    (hs : StoreOK σ reg' s'.st) (hq : s'.sq = sq0) : TreeInv σ reg' sq0 t s' :=
+    (hs : StoreOK σ reg' s'.st) (hq : s'.sq = sq0) (hfs : ∀ o, s'.nextTemp ≤ o → s'.st.payload o = none) :
+    TreeInv σ reg' sq0 t s' :=
   ⟨T.wf, T.truthful, T.kd, RegOK_ext σ he t T.regOK T.below, markersBelow_mono hn t T.below, hs, hq, T.free,
-    fun o ho => T.fresh o (Nat.le_trans hn ho)⟩
+    fun o ho => T.fresh o (Nat.le_trans hn ho), hfs⟩
 
 
 theorem process_multi_iter (σ : Leaves) (h0 : sq0.payload 0 = none) :
     (t : Rel) → (fuel : Nat) → (matAs : Option String) → (s : ProcState) → (reg : Nat → Option (List Row)) →
     t.MultiIter → t.SqlSrcOK σ sq0 → TreeInv σ reg sq0 t s → t.size ≤ fuel →
     ∀ res b s', (processRec σ fuel t matAs).run.run s = (.ok (res, b), s') →
-    ∃ reg', RegExt reg reg' s.nextTemp ∧ ProcMultiOK σ reg' sq0 t s res s'
+    ∃ reg', RegExt reg reg' s.nextTemp ∧ ProcMultiOK σ reg' sq0 t s matAs res b s'
   | .leaf oid le cols nm mn mx pl ms, fuel, matAs, s, reg, hm, hsql, T, hf, res, b, s', h => by
     cases fuel with
     | zero => simp [Rel.size] at hf
@@ -279,20 +477,195 @@ theorem process_multi_iter (σ : Leaves) (h0 : sq0.payload 0 = none) :
         liftM, monadLift, MonadLift.monadLift, ExceptT.lift, ExceptT.run, StateT.run, hc, pure, ExceptT.pure,
         StateT.pure, Functor.map, StateT.map] at h
       obtain ⟨h1, h2⟩ := run_ok_inj h
-      injection h1 with h1 _
-      subst h1; subst h2
-      exact ⟨reg, RegExt.refl _ _, T, hpl, PayMono.refl _, rfl, fun _ => Iff.rfl, rfl, Nat.le_refl _⟩
+      injection h1 with h1 hb
+      subst h1; subst h2; subst hb
+      exact ⟨reg, RegExt.refl _ _, T, hpl, PayMono.refl _, rfl, fun _ => Iff.rfl, rfl, Nat.le_refl _,
+        fun _ => payloadThrough_isSome s _ hc, fun _ _ _ hh => by cases hh⟩
   | .select .., _, _, _, _, hm, _, _, _, _, _, _, _ => by cases hm
   | .mat oid name target, fuel, matAs, s, reg, hm, hsql, T, hf, res, b, s', h => by
-    obtain ⟨hek, hp, hio⟩ := hm
-    obtain ⟨s'', h', P⟩ := process_plain_iter σ reg target.engine hek (Rel.mat oid name target) fuel matAs s
-      hp hio T.wf T.truthful T.kd T.regOK T.store (by rw [T.sq]; exact T.free) hf
-    rw [h'] at h
-    obtain ⟨h1, h2⟩ := run_ok_inj h
-    injection h1 with h1 _
-    subst h1; subst h2
-    exact ⟨reg, RegExt.refl _ _, T.same (RegExt.refl _ _) (Nat.le_of_eq P.temp.symm) P.store (P.sq.trans T.sq),
-      IterOKs.of_iterOK _ (Rel.mat oid name target) hio, P.mono, rfl, fun _ => Iff.rfl, rfl, Nat.le_of_eq P.temp.symm⟩
+    obtain ⟨hek, hcase⟩ := hm
+    rcases hcase with ⟨hp, hio⟩ | ⟨hmt, hxo⟩
+    · obtain ⟨s'', h', P⟩ := process_plain_iter σ reg target.engine hek (Rel.mat oid name target) fuel matAs s
+        hp hio T.wf T.truthful T.kd T.regOK T.store (by rw [T.sq]; exact T.free) hf
+      rw [h'] at h
+      obtain ⟨h1, h2⟩ := run_ok_inj h
+      injection h1 with h1 hb
+      subst h1; subst h2
+      exact ⟨reg, RegExt.refl _ _, T.same (RegExt.refl _ _) (Nat.le_of_eq P.temp.symm) P.store (P.sq.trans T.sq)
+          (freshSt_of_new T.below (Nat.le_of_eq P.temp.symm) T.freshSt P.new),
+        IterOKs.of_iterOK _ (Rel.mat oid name target) hio, P.mono, rfl, fun _ => Iff.rfl, rfl,
+        Nat.le_of_eq P.temp.symm, fun _ => payloadThrough_isSome _ _ (P.cached rfl), fun _ _ _ hh => by cases hh⟩
+    · -- a materialization directly after a transfer
+      cases fuel with
+      | zero => simp [Rel.size] at hf
+      | succ n =>
+        cases target with
+        | leaf => cases hxo
+        | unary => cases hxo
+        | binary => cases hxo
+        | mat => cases hxo
+        | select => cases hxo
+        | transfer o1 d t0 =>
+          have hxo' : d ≠ t0.engine := hxo
+          have hoid : oid < s.nextTemp := T.below.1
+          unfold processRec at h
+          cases hc : (s.payloadOf (Rel.mat oid name (Rel.transfer o1 d t0))).isSome with
+          | true =>
+            simp [bind, ExceptT.bind, ExceptT.mk, ExceptT.bindCont, StateT.bind, get, getThe, MonadStateOf.get,
+              StateT.get, liftM, monadLift, MonadLift.monadLift, ExceptT.lift, ExceptT.run, StateT.run, hc, pure,
+              ExceptT.pure, StateT.pure, Functor.map, StateT.map] at h
+            obtain ⟨h1, h2⟩ := run_ok_inj h
+            injection h1 with h1 hb
+            subst h1; subst h2; subst hb
+            have hpay : (s.st.payload oid).isSome = true := by
+              rw [payloadOf_free s (Rel.mat oid name (Rel.transfer o1 d t0)) (by rw [T.sq]; exact T.free.1)] at hc
+              cases hp : s.st.payload oid with
+              | none => simp [Rel.oid, hp] at hc
+              | some _ => rfl
+            exact ⟨reg, RegExt.refl _ _, T, Or.inl hpay, PayMono.refl _, rfl, fun _ => Iff.rfl, rfl, Nat.le_refl _,
+              fun _ => payloadThrough_isSome _ _ hc, fun _ _ _ hh => by cases hh⟩
+          | false =>
+            have Tt : TreeInv σ reg sq0 (Rel.transfer o1 d t0) s :=
+              ⟨T.wf, T.truthful, T.kd, T.regOK.2, T.below.2, T.store, T.sq, T.free.2, T.fresh, T.freshSt⟩
+            cases hr0 : (processRec σ n (Rel.transfer o1 d t0) (some name)).run.run s with
+            | mk r1 s1 =>
+              have hr := hr0
+              simp only [ExceptT.run, StateT.run] at hr
+              cases r1 with
+              | error e =>
+                simp [bind, ExceptT.bind, ExceptT.mk, ExceptT.bindCont, StateT.bind, get, getThe, MonadStateOf.get,
+                  StateT.get, liftM, monadLift, MonadLift.monadLift, ExceptT.lift, ExceptT.run, StateT.run, pure,
+                  ExceptT.pure, StateT.pure, Functor.map, StateT.map, hc, hr] at h
+                injection h with h1 _; cases h1
+              | ok v =>
+                obtain ⟨nt, fl⟩ := v
+                obtain ⟨reg1, hext, P⟩ := process_multi_iter σ h0 (Rel.transfer o1 d t0) n (some name) s reg hmt hsql Tt
+                  (by simp [Rel.size] at hf ⊢; omega) nt fl s1 hr0
+                obtain ⟨hfl, hshape⟩ := P.xfer o1 d t0 rfl
+                have hfl : fl = true := hfl rfl
+                subst hfl
+                have hregoid : reg1 oid = some (sem σ (Rel.transfer o1 d t0)) := by
+                  rw [hext oid hoid]; exact T.regOK.1
+                have hoid1 : oid < s1.nextTemp := Nat.lt_of_lt_of_le hoid P.temp
+                cases nt with
+                | same =>
+                  -- the Transfer already held a payload: it is handed on
+                  have hsome := P.flag rfl
+                  simp only [Res.get] at hsome
+                  cases hpt : payloadThrough s1 (Rel.transfer o1 d t0) with
+                  | none => simp [hpt] at hsome
+                  | some p =>
+                    obtain ⟨it, hpit, hi, hrows⟩ := payloadThrough_rows σ reg1 s1 P.inv.store _
+                      (by rw [P.inv.sq]; exact P.inv.free) P.inv.regOK P.exec p hpt
+                    subst hpit
+                    simp [bind, ExceptT.bind, ExceptT.mk, ExceptT.bindCont, StateT.bind, get, getThe,
+                      MonadStateOf.get, StateT.get, modify, modifyGet, MonadStateOf.modifyGet, StateT.modifyGet,
+                      MonadState.modifyGet, liftM, monadLift, MonadLift.monadLift, ExceptT.lift, ExceptT.run,
+                      StateT.run, pure, ExceptT.pure, StateT.pure, Functor.map, StateT.map, hc, hr, Res.get,
+                      hpt] at h
+                    obtain ⟨h1, h2⟩ := run_ok_inj h
+                    injection h1 with h1 hb
+                    subst h1; subst h2; subst hb
+                    have hst : StoreOK σ reg1 (s1.attach oid (.iter it)).st :=
+                      StoreOK.cons P.inv.store oid it _ hi hregoid hrows
+                    refine ⟨reg1, hext, T.same hext P.temp hst P.inv.sq ?_, Or.inl ?_, ?_, rfl, fun _ => Iff.rfl,
+                      rfl, P.temp, fun _ => payloadThrough_isSome _ _ ?_, fun _ _ _ hh => by cases hh⟩
+                    · intro o ho
+                      have hne : (oid == o) = false := by
+                        have : s1.nextTemp ≤ o := ho
+                        simp; omega
+                      have := P.inv.freshSt o ho
+                      simpa [ProcState.attach, ExecState.payload, List.find?_cons, hne] using this
+                    · simp [ProcState.attach, ExecState.payload]
+                    · exact P.mono.trans (PayMono.cons s1.st oid it s1.st.evals)
+                    · simp [ProcState.attach, ProcState.payloadOf, Rel.oid, ExecState.payload, Res.get]
+                | new x =>
+                  obtain ⟨f1, t', hx, het'⟩ := hshape x rfl
+                  subst hx
+                  have hsome := P.flag rfl
+                  simp only [Res.get] at hsome
+                  cases hpt : payloadThrough s1 (Rel.transfer f1 d t') with
+                  | none => simp [hpt] at hsome
+                  | some p =>
+                    obtain ⟨it, hpit, hi, hrows⟩ := payloadThrough_rows σ reg1 s1 P.inv.store _
+                      (by rw [P.inv.sq]; exact P.inv.free) P.inv.regOK P.exec p hpt
+                    subst hpit
+                    have hsemx : sem σ (Rel.transfer f1 d t') = sem σ (Rel.transfer o1 d t0) := P.sem_eq
+                    have hdk : d.kind = .iter := hmt.1
+                    have hms : matSimplify (Rel.transfer f1 d t') = false := by
+                      have : (d == t'.engine) = false := by
+                        rw [het']; simpa using hxo'
+                      simp [matSimplify, this]
+                    have hmat : materialize s1.store defaultFuel (Rel.transfer f1 d t') name =
+                        .ok (.new (.mat 0 name (Rel.transfer f1 d t'))) := by
+                      rw [defaultFuel_eq, materialize]
+                      simp [Rel.engine, hdk, hms]
+                    have hpos : s1.nextTemp ≠ 0 := by omega
+                    have hnone : ((({ s1 with nextTemp := s1.nextTemp + 1 } : ProcState).payloadOf
+                        (Rel.mat s1.nextTemp name (Rel.transfer f1 d t')))).isSome = false := by
+                      simp [ProcState.payloadOf, Rel.oid, P.inv.freshSt s1.nextTemp (Nat.le_refl _), P.inv.sq,
+                        P.inv.fresh s1.nextTemp (Nat.le_refl _)]
+                    cases hk : s1.nextTemp with
+                    | zero => exact absurd hk hpos
+                    | succ k =>
+                      rw [hk] at hnone
+                      simp [bind, ExceptT.bind, ExceptT.mk, ExceptT.bindCont, StateT.bind, get, getThe,
+                        MonadStateOf.get, StateT.get, set, StateT.set, modify, modifyGet, MonadStateOf.modifyGet,
+                        StateT.modifyGet, MonadState.modifyGet, liftM, monadLift, MonadLift.monadLift, ExceptT.lift,
+                        ExceptT.run, StateT.run, pure, ExceptT.pure, StateT.pure, Functor.map, StateT.map, hc, hr,
+                        Res.get, hmat, freshTemp, setMatOid, tempRoot, lookThrough, hk, hnone,
+                        payloadThrough_temp, hpt] at h
+                      have hpt' : payloadThrough ⟨s1.st, s1.sq, s1.hooks, k + 1 + 1, s1.det⟩ (Rel.transfer f1 d t') =
+                          some (.iter it) := by
+                        have := payloadThrough_temp s1 (k + 1 + 1) (Rel.transfer f1 d t')
+                        rw [hpt] at this; exact this
+                      cases hpo : (⟨s1.st, s1.sq, s1.hooks, k + 1 + 1, s1.det⟩ : ProcState).payloadOf
+                          (Rel.mat (k + 1) name (Rel.transfer f1 d t')) with
+                      | some q => rw [hpo] at hnone; cases hnone
+                      | none =>
+                        simp [hpo, hpt', StateT.bind, StateT.map, StateT.get, StateT.modifyGet, ExceptT.bindCont,
+                          StateT.pure] at h
+                        obtain ⟨h1, h2⟩ := run_ok_inj h
+                        injection h1 with h1 hb
+                        subst h1; subst h2; subst hb
+                        have hrowsX : it.rows σ = .ok (sem σ (Rel.transfer f1 d t')) := hrows
+                        have hle : s.nextTemp ≤ k + 1 := by have := P.temp; omega
+                        have hbelowX : (Rel.transfer f1 d t').markersBelow (k + 1) := by
+                          rw [← hk]; exact P.inv.below
+                        refine ⟨regSet reg1 (k + 1) (sem σ (Rel.transfer f1 d t')),
+                          hext.trans (regSet_ext _ _ _) hle, ?_, Or.inl ?_, ?_, ?_, ?_, ?_, ?_,
+                          fun _ => payloadThrough_isSome _ _ ?_, fun _ _ _ hh => by cases hh⟩
+                        · refine ⟨P.inv.wf, P.inv.truthful, P.inv.kd, ⟨by simp [regSet], ?_⟩, ⟨?_, ?_⟩, ?_, P.inv.sq, ?_, ?_, ?_⟩
+                          · exact RegOK_ext σ (regSet_ext _ _ _) _ P.inv.regOK hbelowX
+                          · show k + 1 < k + 1 + 1
+                            omega
+                          · exact markersBelow_mono (by show k + 1 ≤ k + 1 + 1; omega) _ hbelowX
+                          · exact StoreOK_set (StoreOK.cons P.inv.store oid it _ hi hregoid (by rw [hrowsX, hsemx]))
+                              (k + 1) it _ hi hrowsX
+                          · exact ⟨P.inv.fresh _ (by rw [hk]; exact Nat.le_refl _), P.inv.free⟩
+                          · intro o ho
+                            exact P.inv.fresh o (by have : k + 1 + 1 ≤ o := ho; omega)
+                          · intro o ho
+                            have ho' : k + 1 + 1 ≤ o := ho
+                            have hne1 : (k + 1 == o) = false := by simp; omega
+                            have hne2 : (oid == o) = false := by simp; omega
+                            have := P.inv.freshSt o (by omega)
+                            simpa [ProcState.attach, ExecState.payload, List.find?_cons, hne1, hne2] using this
+                        · simp [ProcState.attach, ExecState.payload]
+                        · intro o ho
+                          have h1 := P.mono o ho
+                          by_cases a : (k + 1 == o) = true
+                          · simp [ProcState.attach, ExecState.payload, List.find?_cons, a]
+                          · by_cases b : (oid == o) = true
+                            · simp [ProcState.attach, ExecState.payload, List.find?_cons, a, b]
+                            · simpa [ProcState.attach, ExecState.payload, List.find?_cons, a, b] using h1
+                        · simpa [Res.get, sem] using hsemx
+                        · intro u
+                          simpa [Res.get, Rel.columns] using P.cols u
+                        · simpa [Res.get, Rel.engine] using P.engine
+                        · show s.nextTemp ≤ k + 1 + 1
+                          omega
+                        · simp [ProcState.attach, ProcState.payloadOf, Rel.oid, ExecState.payload, Res.get]
   | .unary op target c, fuel, matAs, s, reg, hm, hsql, T, hf, res, b, s', h => by
     cases fuel with
     | zero => simp [Rel.size] at hf
@@ -300,7 +673,7 @@ theorem process_multi_iter (σ : Leaves) (h0 : sq0.payload 0 = none) :
       have hkd' : keyDetermined σ target = true := by
         have := T.kd; simp only [keyDetermined, Bool.and_eq_true] at this; exact this.1
       obtain ⟨hmt, hnid, har⟩ := hm
-      have Tt : TreeInv σ reg sq0 target s := ⟨T.wf.1, T.truthful, hkd', T.regOK, T.below, T.store, T.sq, T.free, T.fresh⟩
+      have Tt : TreeInv σ reg sq0 target s := ⟨T.wf.1, T.truthful, hkd', T.regOK, T.below, T.store, T.sq, T.free, T.fresh, T.freshSt⟩
       unfold processRec at h
       cases hr0 : (processRec σ n target none).run.run s with
       | mk r1 s1 =>
@@ -323,10 +696,10 @@ theorem process_multi_iter (σ : Leaves) (h0 : sq0.payload 0 = none) :
           | same =>
             simp only [StateT.pure, pure] at h
             obtain ⟨h1, h2⟩ := run_ok_inj h
-            injection h1 with h1 _
-            subst h1; subst h2
-            exact ⟨reg1, hext, T.same hext P.temp P.inv.store P.inv.sq, ⟨P.exec, hnid, har⟩, P.mono, rfl, fun _ => Iff.rfl, rfl,
-              P.temp⟩
+            injection h1 with h1 hb
+            subst h1; subst h2; subst hb
+            exact ⟨reg1, hext, T.same hext P.temp P.inv.store P.inv.sq P.inv.freshSt, ⟨P.exec, hnid, har⟩, P.mono, rfl,
+              fun _ => Iff.rfl, rfl, P.temp, (fun hh => by cases hh), fun _ _ _ hh => by cases hh⟩
           | new t' =>
             have hk : t'.engine.kind = .iter := by
               have := P.engine
@@ -341,11 +714,12 @@ theorem process_multi_iter (σ : Leaves) (h0 : sq0.payload 0 = none) :
               simp only [StateT.bind, StateT.map, StateT.get, ExceptT.bindCont, Functor.map, ha, pure,
                 StateT.pure, bind] at h
               obtain ⟨h1, h2⟩ := run_ok_inj h
-              injection h1 with h1 _
-              subst h1; subst h2
+              injection h1 with h1 hb
+              subst h1; subst h2; subst hb
               obtain ⟨I, hx, hs, hc, he⟩ := reapply_iter σ reg1 s1.store op target t' c s1 r hnid har T.wf T.kd P.inv
                 P.exec P.sem_eq P.cols hk ha
-              exact ⟨reg1, hext, I, hx, P.mono, hs, fun u => hc u, he.trans P.engine, P.temp⟩
+              exact ⟨reg1, hext, I, hx, P.mono, hs, fun u => hc u, he.trans P.engine, P.temp, (fun hh => by cases hh),
+                fun _ _ _ hh => by cases hh⟩
   | .binary op l r c, fuel, matAs, s, reg, hm, hsql, T, hf, res, b, s', h => by
     cases fuel with
     | zero => simp [Rel.size] at hf
@@ -358,7 +732,7 @@ theorem process_multi_iter (σ : Leaves) (h0 : sq0.payload 0 = none) :
         have hkd := T.kd
         simp only [keyDetermined, Bool.and_eq_true] at hkd
         obtain ⟨hwl, hwr, hcc, hcols⟩ := T.wf
-        have Tl : TreeInv σ reg sq0 l s := ⟨hwl, T.truthful.1, hkd.1, T.regOK.1, T.below.1, T.store, T.sq, T.free.1, T.fresh⟩
+        have Tl : TreeInv σ reg sq0 l s := ⟨hwl, T.truthful.1, hkd.1, T.regOK.1, T.below.1, T.store, T.sq, T.free.1, T.fresh, T.freshSt⟩
         unfold processRec at h
         cases hr0 : (processRec σ n l none).run.run s with
         | mk r1 s1 =>
@@ -376,7 +750,7 @@ theorem process_multi_iter (σ : Leaves) (h0 : sq0.payload 0 = none) :
               (by simp [Rel.size] at hf; omega) nl lp s1 hr0
             have Tr : TreeInv σ reg1 sq0 r s1 :=
               ⟨hwr, T.truthful.2, hkd.2, RegOK_ext σ hext1 r T.regOK.2 T.below.2,
-                markersBelow_mono P1.temp r T.below.2, P1.inv.store, P1.inv.sq, T.free.2, P1.inv.fresh⟩
+                markersBelow_mono P1.temp r T.below.2, P1.inv.store, P1.inv.sq, T.free.2, P1.inv.fresh, P1.inv.freshSt⟩
             cases hq0 : (processRec σ n r none).run.run s1 with
             | mk r2 s2 =>
               have hq := hq0
@@ -394,7 +768,7 @@ theorem process_multi_iter (σ : Leaves) (h0 : sq0.payload 0 = none) :
                 simp [bind, ExceptT.bind, ExceptT.mk, ExceptT.bindCont, StateT.bind, get, getThe, MonadStateOf.get,
                   StateT.get, liftM, monadLift, MonadLift.monadLift, ExceptT.lift, ExceptT.run, StateT.run, pure,
                   ExceptT.pure, StateT.pure, Functor.map, StateT.map, ProcState.payloadOf, hr, hq] at h
-                have L' : TreeInv σ reg2 sq0 (nl.get l) s2 := P1.inv.same hext2 P2.temp P2.inv.store P2.inv.sq
+                have L' : TreeInv σ reg2 sq0 (nl.get l) s2 := P1.inv.same hext2 P2.temp P2.inv.store P2.inv.sq P2.inv.freshSt
                 have R' := P2.inv
                 have L'x : (nl.get l).IterOKs s2.st := IterOKs.mono P2.mono _ P1.exec
                 have hmono : PayMono s.st s2.st := P1.mono.trans P2.mono
@@ -408,23 +782,26 @@ theorem process_multi_iter (σ : Leaves) (h0 : sq0.payload 0 = none) :
                 have finishNew : ∀ (X : Rel) (fl : Bool), TreeInv σ reg2 sq0 X s2 → X.IterOKs s2.st →
                     sem σ X = sem σ l ++ sem σ r →
                     (∀ u, u ∈ X.columns ↔ u ∈ l.columns) → X.engine = l.engine →
+                    (fl = true → (payloadThrough s2 X).isSome = true) →
                     (Except.ok (Res.new X, fl), s2) = ((Except.ok (res, b) : Except Err (Res × Bool)), s') →
-                    ∃ reg', RegExt reg reg' s.nextTemp ∧ ProcMultiOK σ reg' sq0 (Rel.binary .chain l r c) s res s' := by
-                  intro X fl IX hxX hsX hcX heX hh
+                    ∃ reg', RegExt reg reg' s.nextTemp ∧ ProcMultiOK σ reg' sq0 (Rel.binary .chain l r c) s matAs res b s' := by
+                  intro X fl IX hxX hsX hcX heX hfX hh
                   obtain ⟨h1, h2⟩ := run_ok_inj hh
-                  injection h1 with h1 _
-                  subst h1; subst h2
-                  exact ⟨reg2, hextAll, IX, hxX, hmono, by rw [hsemC]; exact hsX, fun u => by rw [hcc]; exact hcX u, heX, htemp⟩
+                  injection h1 with h1 hb
+                  subst h1; subst h2; subst hb
+                  exact ⟨reg2, hextAll, IX, hxX, hmono, by rw [hsemC]; exact hsX, fun u => by rw [hcc]; exact hcX u, heX, htemp,
+                    hfX, fun _ _ _ hh => by cases hh⟩
                 by_cases hl0 : (nl.get l).maxRows = some 0
                 · simp only [hl0, if_true, StateT.pure, pure] at h
-                  refine finishNew (nr.get r) rp R' P2.exec ?_ ?_ ?_ h
+                  refine finishNew (nr.get r) rp R' P2.exec ?_ ?_ ?_ P2.flag h
                   · rw [P2.sem_eq, ← P1.sem_eq, hempty _ L'.wf L'.truthful hl0]; rfl
                   · intro u; rw [P2.cols u]; exact (hcols u).symm
                   · rw [P2.engine]; exact heng.symm
                 · simp only [hl0, if_false] at h
                   by_cases hr0' : (nr.get r).maxRows = some 0
                   · simp only [hr0', if_true, StateT.pure, pure] at h
-                    refine finishNew (nl.get l) lp L' L'x ?_ (fun u => P1.cols u) P1.engine h
+                    refine finishNew (nl.get l) lp L' L'x ?_ (fun u => P1.cols u) P1.engine
+                      (fun hh => payloadThrough_mono (P2.inv.sq.trans P1.inv.sq.symm) P2.mono _ (P1.flag hh)) h
                     rw [P1.sem_eq, ← P2.sem_eq, hempty _ R'.wf R'.truthful hr0']; simp
                   · simp only [hr0', if_false] at h
                     have hk : (nl.get l).engine.kind = .iter := by rw [P1.engine]; exact MultiIter.kind l hml
@@ -432,14 +809,14 @@ theorem process_multi_iter (σ : Leaves) (h0 : sq0.payload 0 = none) :
                         | Except.error e => ((Except.error e : Except Err (Res × Bool)), s2)
                         | Except.ok bb => (Except.ok (Res.new (bb.get (nl.get l) (nr.get r)), false), s2)) =
                         (Except.ok (res, b), s') →
-                        ∃ reg', RegExt reg reg' s.nextTemp ∧ ProcMultiOK σ reg' sq0 (Rel.binary .chain l r c) s res s' := by
+                        ∃ reg', RegExt reg reg' s.nextTemp ∧ ProcMultiOK σ reg' sq0 (Rel.binary .chain l r c) s matAs res b s' := by
                       intro hh
                       cases hb : binaryApply s2.store defaultFuel BOp.chain (nl.get l) (nr.get r) with
                       | error e => simp only [hb] at hh; injection hh with h1 _; cases h1
                       | ok bb =>
                         simp only [hb] at hh
                         obtain ⟨IX, hxX, hsX, hcX, heX⟩ := rechain_iter σ reg2 s2.store _ _ s2 bb L' R' L'x P2.exec hk hb
-                        refine finishNew _ false IX hxX ?_ ?_ ?_ hh
+                        refine finishNew _ false IX hxX ?_ ?_ ?_ (fun hh => by cases hh) hh
                         · rw [hsX, P1.sem_eq, P2.sem_eq]
                         · intro u; rw [hcX u]; exact P1.cols u
                         · rw [heX]; exact P1.engine
@@ -449,10 +826,11 @@ theorem process_multi_iter (σ : Leaves) (h0 : sq0.payload 0 = none) :
                       | same =>
                         simp only [StateT.pure, pure] at h
                         obtain ⟨h1, h2⟩ := run_ok_inj h
-                        injection h1 with h1 _
-                        subst h1; subst h2
-                        exact ⟨reg2, hextAll, T.same hextAll htemp P2.inv.store P2.inv.sq, ⟨L'x, P2.exec, heng, trivial⟩, hmono, rfl,
-                          fun _ => Iff.rfl, rfl, htemp⟩
+                        injection h1 with h1 hb
+                        subst h1; subst h2; subst hb
+                        exact ⟨reg2, hextAll, T.same hextAll htemp P2.inv.store P2.inv.sq P2.inv.freshSt,
+                          ⟨L'x, P2.exec, heng, trivial⟩, hmono, rfl, fun _ => Iff.rfl, rfl, htemp, (fun hh => by cases hh),
+                          fun _ _ _ hh => by cases hh⟩
                       | new y =>
                         apply hrebuild
                         simp only [StateT.bind, StateT.map, StateT.get, ExceptT.bindCont, Functor.map, throw,
@@ -476,14 +854,19 @@ theorem process_multi_iter (σ : Leaves) (h0 : sq0.payload 0 = none) :
           (Except.ok (Res.new (Rel.transfer s2.nextTemp dest target), matAs.isSome),
               ({ s2 with nextTemp := s2.nextTemp + 1 } : ProcState).attach s2.nextTemp (.iter it)) =
             ((Except.ok (res, b) : Except Err (Res × Bool)), s') →
-          ∃ reg', RegExt reg reg' s.nextTemp ∧ ProcMultiOK σ reg' sq0 (Rel.transfer oid dest target) s res s' := by
+          ∃ reg', RegExt reg reg' s.nextTemp ∧ ProcMultiOK σ reg' sq0 (Rel.transfer oid dest target) s matAs res b s' := by
         intro s2 it hst hsq hnt hi hrows hh
         obtain ⟨h1, h2⟩ := run_ok_inj hh
-        injection h1 with h1 _
-        subst h1; subst h2
+        injection h1 with h1 hb
+        subst h1; subst h2; subst hb
         refine ⟨regSet reg s2.nextTemp (sem σ target), by rw [hnt]; exact regSet_ext _ _ _, ?_, ?_, ?_, rfl,
-          fun _ => Iff.rfl, rfl, ?_⟩
-        · refine ⟨T.wf, T.truthful, T.kd, ⟨by simp [regSet], ?_⟩, ⟨?_, ?_⟩, ?_, ?_, ?_, ?_⟩
+          fun _ => Iff.rfl, rfl, ?_,
+          (fun _ => payloadThrough_isSome _ _ (by
+            simp [ProcState.attach, ProcState.payloadOf, Rel.oid, ExecState.payload, Res.get])),
+          (fun o d t0 hh => by
+            injection hh with _ hd ht; subst hd; subst ht
+            exact ⟨fun h => h, fun x hx => by injection hx with hx; exact ⟨_, _, hx.symm, rfl⟩⟩)⟩
+        · refine ⟨T.wf, T.truthful, T.kd, ⟨by simp [regSet], ?_⟩, ⟨?_, ?_⟩, ?_, ?_, ?_, ?_, ?_⟩
           · exact RegOK_ext σ (by rw [hnt]; exact regSet_ext _ _ _) _ T.regOK.2 T.below.2
           · show s2.nextTemp < s2.nextTemp + 1
             omega
@@ -496,6 +879,12 @@ theorem process_multi_iter (σ : Leaves) (h0 : sq0.payload 0 = none) :
           · exact ⟨T.fresh _ (by rw [hnt]; exact Nat.le_refl _), T.free.2⟩
           · intro o ho
             exact T.fresh o (by have : s2.nextTemp + 1 ≤ o := ho; omega)
+          · intro o ho
+            have ho' : s2.nextTemp + 1 ≤ o := ho
+            have hne : (s2.nextTemp == o) = false := by simp; omega
+            have := T.freshSt o (by omega)
+            rw [← hst] at this
+            simpa [ProcState.attach, ExecState.payload, List.find?_cons, hne] using this
         · refine Or.inl ?_
           show (({ s2.st with payloads := (s2.nextTemp, it) :: s2.st.payloads } : ExecState).payload s2.nextTemp).isSome
             = true
@@ -512,14 +901,15 @@ theorem process_multi_iter (σ : Leaves) (h0 : sq0.payload 0 = none) :
           StateT.get, liftM, monadLift, MonadLift.monadLift, ExceptT.lift, ExceptT.run, StateT.run, hc, pure,
           ExceptT.pure, StateT.pure, Functor.map, StateT.map] at h
         obtain ⟨h1, h2⟩ := run_ok_inj h
-        injection h1 with h1 _
-        subst h1; subst h2
+        injection h1 with h1 hb
+        subst h1; subst h2; subst hb
         have hpay : (s.st.payload oid).isSome = true := by
           rw [payloadOf_free s (Rel.transfer oid dest target) (by rw [T.sq]; exact T.free.1)] at hc
           cases hp : s.st.payload oid with
           | none => simp [Rel.oid, hp] at hc
           | some _ => rfl
-        exact ⟨reg, RegExt.refl _ _, T, Or.inl hpay, PayMono.refl _, rfl, fun _ => Iff.rfl, rfl, Nat.le_refl _⟩
+        exact ⟨reg, RegExt.refl _ _, T, Or.inl hpay, PayMono.refl _, rfl, fun _ => Iff.rfl, rfl, Nat.le_refl _,
+          fun _ => payloadThrough_isSome _ _ hc, fun _ _ _ _ => ⟨fun _ => rfl, fun _ hx => by cases hx⟩⟩
       | false =>
        by_cases hji : (Rel.transfer oid dest target).isJoinIdentity = true
        · simp [bind, ExceptT.bind, ExceptT.mk, ExceptT.bindCont, StateT.bind, get, getThe, MonadStateOf.get,
@@ -542,7 +932,7 @@ theorem process_multi_iter (σ : Leaves) (h0 : sq0.payload 0 = none) :
            rcases hsrc with ⟨hki, hmt⟩ | ⟨hks, hraw, hleaf⟩
            · -- the source lives in an iteration engine
              have Tt : TreeInv σ reg sq0 target s :=
-               ⟨T.wf, T.truthful, T.kd, T.regOK.2, T.below.2, T.store, T.sq, T.free.2 hki, T.fresh⟩
+               ⟨T.wf, T.truthful, T.kd, T.regOK.2, T.below.2, T.store, T.sq, T.free.2 hki, T.fresh, T.freshSt⟩
              cases hr0 : (processRec σ n target none).run.run s with
              | mk r1 s1 =>
                have hr := hr0
@@ -558,7 +948,7 @@ theorem process_multi_iter (σ : Leaves) (h0 : sq0.payload 0 = none) :
                  obtain ⟨reg1, hext, P⟩ := process_multi_iter σ h0 target n none s reg hmt (hsql.2 hki) Tt
                    (by simp [Rel.size] at hf; omega) nt fl s1 hr0
                  have hk : (nt.get target).engine.kind = .iter := by rw [P.engine]; exact hki
-                 obtain ⟨s2, hh, h2, hsq, hnt, hm2⟩ := hookTransfer_iter σ reg1 (nt.get target) dest matAs s1 hdk hk
+                 obtain ⟨s2, hh, h2, hsq, hnt, hm2, hn2⟩ := hookTransfer_iter σ reg1 (nt.get target) dest matAs s1 hdk hk
                    P.exec P.inv.wf P.inv.truthful P.inv.kd P.inv.regOK P.inv.store
                  simp [bind, ExceptT.bind, ExceptT.mk, ExceptT.bindCont, StateT.bind, get, getThe, MonadStateOf.get,
                    StateT.get, liftM, monadLift, MonadLift.monadLift, ExceptT.lift, ExceptT.run, StateT.run, pure,
@@ -566,12 +956,19 @@ theorem process_multi_iter (σ : Leaves) (h0 : sq0.payload 0 = none) :
                    set, StateT.set, modify, modifyGet, MonadStateOf.modifyGet, StateT.modifyGet,
                    MonadState.modifyGet] at h
                  obtain ⟨h1, h2'⟩ := run_ok_inj h
-                 injection h1 with h1 _
-                 subst h1; subst h2'
+                 injection h1 with h1 hb
+                 subst h1; subst h2'; subst hb
                  have hf1 : s2.nextTemp = s1.nextTemp := hnt
+                 have hfs2 : ∀ o, s2.nextTemp ≤ o → s2.st.payload o = none :=
+                   freshSt_of_new P.inv.below (Nat.le_of_eq hf1.symm) P.inv.freshSt hn2
                  refine ⟨regSet reg1 s2.nextTemp (sem σ (nt.get target)),
-                   hext.trans (regSet_ext _ _ _) (by rw [hf1]; exact P.temp), ?_, ?_, ?_, ?_, ?_, rfl, ?_⟩
-                 · refine ⟨P.inv.wf, P.inv.truthful, P.inv.kd, ⟨by simp [regSet], ?_⟩, ⟨?_, ?_⟩, ?_, ?_, ?_, ?_⟩
+                   hext.trans (regSet_ext _ _ _) (by rw [hf1]; exact P.temp), ?_, ?_, ?_, ?_, ?_, rfl, ?_,
+                   (fun _ => payloadThrough_isSome _ _ (by
+                     simp [ProcState.attach, ProcState.payloadOf, Rel.oid, ExecState.payload, Res.get])),
+                   (fun o d t0 hh => by
+                     injection hh with _ hd ht; subst hd; subst ht
+                     exact ⟨fun h => h, fun x hx => by injection hx with hx; exact ⟨_, _, hx.symm, P.engine⟩⟩)⟩
+                 · refine ⟨P.inv.wf, P.inv.truthful, P.inv.kd, ⟨by simp [regSet], ?_⟩, ⟨?_, ?_⟩, ?_, ?_, ?_, ?_, ?_⟩
                    · exact RegOK_ext σ (regSet_ext _ _ _) _ P.inv.regOK (by rw [hf1]; exact P.inv.below)
                    · show s2.nextTemp < s2.nextTemp + 1
                      omega
@@ -582,6 +979,11 @@ theorem process_multi_iter (σ : Leaves) (h0 : sq0.payload 0 = none) :
                    · exact ⟨P.inv.fresh _ (by rw [hf1]; exact Nat.le_refl _), fun _ => P.inv.free⟩
                    · intro o ho
                      exact P.inv.fresh o (by have : s2.nextTemp + 1 ≤ o := ho; omega)
+                   · intro o ho
+                     have ho' : s2.nextTemp + 1 ≤ o := ho
+                     have hne : (s2.nextTemp == o) = false := by simp; omega
+                     have := hfs2 o (by omega)
+                     simpa [ProcState.attach, ExecState.payload, List.find?_cons, hne] using this
                  · refine Or.inl ?_
                    show (({ s2.st with payloads := (s2.nextTemp, _) :: s2.st.payloads } : ExecState).payload
                      s2.nextTemp).isSome = true
@@ -628,7 +1030,7 @@ theorem process_multi_then_execute (σ : Leaves) (reg : Nat → Option (List Row
     (sq : SqlState) (h0 : sq.payload 0 = none) (hm : t.MultiIter) (hsql : t.SqlSrcOK σ sq) (hwf : t.WF)
     (htr : t.Truthful σ) (hkd : keyDetermined σ t = true) (hreg : t.RegOK σ reg) (hb : t.markersBelow tempBase)
     (hs : StoreOK σ reg st) (hfree : t.sqFree sq) (hfresh : ∀ o, tempBase ≤ o → sq.payload o = none)
-    (hf : t.size ≤ defaultFuel)
+    (hfreshSt : ∀ o, tempBase ≤ o → st.payload o = none) (hf : t.size ≤ defaultFuel)
     (res : Res) (ps : ProcState) (h : processTop σ st sq t = (.ok res, ps)) :
     (res.get t).engine = t.engine ∧ (∀ u, u ∈ (res.get t).columns ↔ u ∈ t.columns) ∧
       ∃ it s', exec σ (res.get t).engine (res.get t) ps.st = .ok (it, s') ∧ it.rows σ = .ok (sem σ t) := by
@@ -645,12 +1047,12 @@ theorem process_multi_then_execute (σ : Leaves) (reg : Nat → Option (List Row
       obtain ⟨h1, h2⟩ := run_ok_inj h
       subst h1; subst h2
       obtain ⟨reg', _, P⟩ := process_multi_iter σ h0 t defaultFuel none { st := st, sq := sq } reg hm hsql
-        ⟨hwf, htr, hkd, hreg, hb, hs, rfl, hfree, hfresh⟩ hf res0 b s1 hr
+        ⟨hwf, htr, hkd, hreg, hb, hs, rfl, hfree, hfresh, hfreshSt⟩ hf res0 b s1 hr
       refine ⟨P.engine, P.cols, ?_⟩
       have := exec_correctM σ reg' (res0.get t) (res0.get t).engine s1.st P.exec P.inv.wf P.inv.truthful
         P.inv.kd P.inv.regOK P.inv.store rfl
       unfold ExecGoodM at this
-      obtain ⟨it, s'', a, bb, _, _, _⟩ := this
+      obtain ⟨it, s'', a, bb, _, _, _, _⟩ := this
       exact ⟨it, s'', a, by rw [bb, P.sem_eq]⟩
 
 end DafRel
